@@ -72,8 +72,11 @@ def _gen_pwl(rng):
   n = rng.randint(2, 5 if learned else 6)
   k0 = tfimpl.dy(rng, -4, 4, 4)
   ks = [k0]
-  for _ in range(n - 1):
-    ks.append(ks[-1] + rng.choice(GAPS))
+  # one in eight fixed-keypoint layers has a pair of keypoints 2^-22 apart (a length "guard" such as
+  # max(length, 1e-6) changes the function there); all values stay dyadic and exact in float64
+  tiny_at = rng.randrange(n - 1) if (not learned and rng.random() < 0.125) else None
+  for j in range(n - 1):
+    ks.append(ks[-1] + (2.0 ** -22 if j == tiny_at else rng.choice(GAPS)))
   units = rng.choice([1, 1, 2, 3])
   cols = 1 if units == 1 else rng.choice([1, units])
   cyclic = n >= 3 and rng.random() < 0.3  # the default initializer rejects a one-row kernel
@@ -84,11 +87,12 @@ def _gen_pwl(rng):
   impute = mode != "none"
   miv = None
   if mode in ("value", "both"):
-    miv = rng.choice([-1.0, ks[0], ks[-1], ks[rng.randrange(n)], ks[0] + 0.125, tfimpl.dy(rng, -6, 6), -100.0])
+    # 0.0 is a falsy-but-set value (`if self.missing_input_value:` would drop it)
+    miv = rng.choice([-1.0, 0.0, 0.0, ks[0], ks[-1], ks[rng.randrange(n)], ks[0] + 0.125, tfimpl.dy(rng, -6, 6), -100.0])
   mov, mow = None, []
   if impute:
     if rng.random() < 0.5:
-      mov = tfimpl.dy(rng)
+      mov = 0.0 if rng.random() < 0.3 else tfimpl.dy(rng)
     else:
       mow = [tfimpl.dy(rng) for _ in range(units)]
   split = rng.random() < (0.35 if units > 1 else 0.15)
